@@ -465,6 +465,34 @@ func (e *exporter) function(f *ssa.Function) {
 		blocks = append(blocks, bm)
 	}
 	m["blocks"] = blocks
+	// source names of range keys (pre-order), so that a loop invariant written over `i` survives the
+	// rewrite of `for i := 0; i < n; i++` as `for i := range s` (go/ssa names the phi "rangeindex")
+	if syn := f.Syntax(); syn != nil {
+		var body *ast.BlockStmt
+		switch x := syn.(type) {
+		case *ast.FuncDecl:
+			body = x.Body
+		case *ast.FuncLit:
+			body = x.Body
+		}
+		keys := []string{}
+		if body != nil {
+			ast.Inspect(body, func(n ast.Node) bool {
+				switch x := n.(type) {
+				case *ast.FuncLit:
+					return false
+				case *ast.RangeStmt:
+					k := ""
+					if id, ok := x.Key.(*ast.Ident); ok && id.Name != "_" {
+						k = id.Name
+					}
+					keys = append(keys, k)
+				}
+				return true
+			})
+		}
+		m["rangekeys"] = keys
+	}
 	for _, af := range f.AnonFuncs {
 		e.enqueue(af)
 	}
